@@ -258,6 +258,20 @@ def oracle(sc, res, lossless=True):
                 view[name] = True
             elif kind == 'remove':
                 view[name] = False
+        # "within a bounded settling time after the last change ... reporting exactly the instances currently registered": an instance whose
+        # last change (register / update) lies more than the settling time back and which is still registered must not be reported Removed -
+        # not even for a while (three announcements, three goodbyes and three refresh attempts make every single loss harmless)
+        for (t, kind, ty, name) in evs:
+            if kind != 'remove':
+                continue
+            idx = [i for i, sv in enumerate(sc['svcs']) if sv['name'] == name]
+            if not idx:
+                continue
+            touched = [(ot, ok) for (ot, ok, oa) in sc['ops'] if ot <= t and ((ok in ('register', 'update', 'unregister') and oa == idx[0])
+                                                                                or (ok == 'close' and oa == sc['svcs'][idx[0]]['host']))]
+            if touched and touched[-1][1] in ('register', 'update') and t > touched[-1][0] + SETTLE:
+                return (f"browser {bi} on host {b['host']} reported {name} Removed at +{t} ms although it has been registered without change "
+                        f"since +{touched[-1][0]} ms")
         seen = {n for n, on in view.items() if on}
         want = {sc['svcs'][i]['name'] for i in final if sc['svcs'][i]['type'] in b['types']}
         if seen != want:
@@ -372,8 +386,9 @@ def run(ctx):
                    drop=None, lookups=True)]
     # the refresh path: two instances of one type announced 1500 s apart, a browser present from the start, observed past the first
     # pointer's TTL - every single delivery is dropped in turn (the 75 % refresh query and its answer stand alone in time)
-    s1 = dict(s0, name='i1.' + TYPES[0], server='host2.local.', port=1001, v4=[bytes([10, 0, 0, 3])], host=2)
-    corpus.append(dict(nh=3, svcs=[s0, s1], browsers=[dict(host=1, types=[TYPES[0]])],
+    # (of two types: the probes of a second instance of the same type are answered by the first and would refresh its pointer everywhere)
+    s1 = dict(s0, type=TYPES[1], name='i1.' + TYPES[1], server='host2.local.', port=1001, v4=[bytes([10, 0, 0, 3])], host=2)
+    corpus.append(dict(nh=3, svcs=[s0, s1], browsers=[dict(host=1, types=[TYPES[0], TYPES[1]])],
                        ops=[(1000, 'browse', 0), (2000, 'register', 0), (1502000, 'register', 1)], end=6200000, seed=2, dup=0.0, drop='all', lookups=True))
     # an answer still in flight when the service is withdrawn: a browser starts 30-130 ms before the unregister, so the answer to its first
     # query leaves just before the goodbyes and may arrive (up to 100 ms late) after the first of them - the second and third goodbye,
